@@ -211,6 +211,33 @@ Proof.
       * intros p Hp. unfold delta. rewrite (Nat.eqb_sym p q). destruct (Nat.eqb_spec q p); [subst|]; ring.
 Qed.
 
+Lemma cp_single_eq (m : mode K) i : wf_mode m = true -> (i < m_size m)%nat ->
+  sumn (rl (sem_mode (on_core cp_single m))) (fun p =>
+    sumn (rr (sem_mode (on_core cp_single m))) (fun q => sl (sem_mode (on_core cp_single m)) i p q * ones q)) =
+  sumn (rl (sem_mode m)) (fun p => sumn (rr (sem_mode m)) (fun q => sl (sem_mode m) i p q * ones q)).
+Proof.
+  intros Hwf Hi. unfold sem_mode, on_core, wf_mode, m_size in *. cbn [core fac].
+  destruct (core m) as [a s b g|s r g] eqn:Ec.
+  - cbn [cp_single]. destruct (fac m) as [[[di s'] U]|]; reflexivity.
+  - cbn [cp_single c_rr] in *. destruct (fac m) as [[[di s'] U]|]; cbn [rl rr sl c_rl c_rr c_sl].
+    + rewrite !sumn_1 by assumption. unfold ones.
+      transitivity (sumn r (fun p => sumn s' (fun j => U i j * g j p))).
+      * rewrite sumn_exch by assumption. rewrite <- (sumn_mul_r Kth s' 1). apply sumn_ext. intros j _.
+        rewrite <- sumn_mul_l by assumption. ring.
+      * apply sumn_ext. intros p Hp.
+        rewrite (sumn_ext r _ (fun q => delta p q * (sumn s' (fun j => U i j * g j p) * 1))).
+        -- rewrite sumn_delta by assumption. ring.
+        -- intros q Hq. unfold delta. destruct (Nat.eqb_spec p q).
+           ++ ring.
+           ++ rewrite (sumn_zero_ext Kth s'); [ring|]. intros; ring.
+    + rewrite !sumn_1 by assumption. unfold ones.
+      transitivity (sumn r (fun p => g i p)); [ring|].
+      apply sumn_ext. intros p Hp.
+      rewrite (sumn_ext r _ (fun q => delta p q * (g i p * 1))).
+      * rewrite sumn_delta by assumption. ring.
+      * intros q Hq. unfold delta. destruct (Nat.eqb_spec p q); ring.
+Qed.
+
 Theorem cp_to_tt_sound (t : tensor K) idx : wf_tensor t = true ->
   in_range (shape t) idx = true -> den (cp_to_tt t) idx = den t idx.
 Proof.
@@ -222,7 +249,7 @@ Proof.
   destruct (wf_sem_dims m) as (D1 & D2 & D3).
   unfold den, eval. destruct t as [|m2 t].
   - destruct idx; [|discriminate]. cbn [cp_to_tt sem map evalv].
-    apply cp_first_eq; auto. apply Hm; left; auto.
+    apply cp_single_eq; auto. apply Hm; left; auto.
   - change (cp_to_tt (m :: m2 :: t)) with (on_core cp_first m :: cp_to_tt_tail (m2 :: t)).
     cbn [sem map evalv].
     apply cp_first_eq; auto; [apply Hm; left; auto|].
